@@ -253,6 +253,66 @@ Fixpoint acker_worker (fx : bool) (q : list amsg) (acks : list dack) (script : l
 Definition acker_run (fx : bool) (q : list amsg) (script : list areply) : v1res aout :=
   acker_worker fx q [] script.
 
+(* ---- the feeding schedule ----
+   Run pushes a message into the queue when the previous node hands it over, which may be before or
+   after the Ack() reply that covers it: the messages arrive in groups (phases), and between two
+   groups the queue runs empty and the worker goes back to waiting for a signal.  The worker's
+   buffer of fetched acks (acks) is a variable of the worker function, not of its loop body: it
+   survives the idle period.  A message that was never handed over (Run ended before its group)
+   stays open; a message in the queue when Run ends is nacked by teardown. *)
+
+Definition all_open (q : list amsg) : list mstat := map (fun _ => SOpen) q.
+
+(* one message in the worker's hands: go on with the next | Run ends (s = what becomes of this
+   message) | the worker panics *)
+Inductive astep :=
+| StCont (s : mstat) (acks : list dack) (script : list areply)
+| StStop (s : mstat) (t : aterm)
+| StPanic.
+
+Definition acker_step (fx : bool) (m : amsg) (acks : list dack) (script : list areply) : astep :=
+  if am_filtered m then
+    if am_ack_err m then StStop SAcked (ATErr false) else StCont SAcked acks script
+  else
+    match fetch acks script with
+    | FExhausted => StStop SNacked (ATErr true)
+    | FErr => StStop SNacked (ATErr false)
+    | FAcks acks1 script1 =>
+        match acks1 with
+        | [] => if fx then StStop SNacked (ATErr false) else StPanic
+        | (p, e) :: rest =>
+            if negb (v1key_eqb (am_pos m) p) then StStop SNacked (ATErr false)
+            else if e then
+              if am_nack_err m then StStop SNacked (ATErr false) else StCont SNacked rest script1
+            else
+              if am_ack_err m then StStop SAcked (ATErr false) else StCont SAcked rest script1
+        end
+    end.
+
+(* the worker over one group; und = the messages of the later groups; k = what happens once the
+   queue is empty again (the next group arrives, with the buffer and the script as they are) *)
+Fixpoint feed_worker (fx : bool) (q und : list amsg) (k : list dack -> list areply -> v1res aout)
+         (acks : list dack) (script : list areply) : v1res aout :=
+  match q with
+  | [] => k acks script
+  | m :: q' =>
+      match acker_step fx m acks script with
+      | StPanic => V1Panic SiteAcks0
+      | StStop s t => V1Ok (s :: all_nacked q' ++ all_open und, t)
+      | StCont s a sc => acons s (feed_worker fx q' und k a sc)
+      end
+  end.
+
+Fixpoint acker_feed (fx : bool) (ph : list (list amsg)) (acks : list dack) (script : list areply)
+  : v1res aout :=
+  match ph with
+  | [] => V1Ok ([], ATOk)            (* everything handled; inbound channel closed; Run = nil *)
+  | q :: rest => feed_worker fx q (concat rest) (acker_feed fx rest) acks script
+  end.
+
+Definition acker_feed_run (fx : bool) (ph : list (list amsg)) (script : list areply) : v1res aout :=
+  acker_feed fx ph [] script.
+
 (* ---- property monitor ---- *)
 
 (* the acks the destination sent, in order, up to its first error reply *)
@@ -292,9 +352,27 @@ Fixpoint unfiltered_before (q : list amsg) (i : nat) : nat :=
 Definition aterm_live (t : aterm) : bool :=
   match t with ATPanic | ATHang => false | _ => true end.
 
+(* the unfiltered messages that were handed to the node (anything but open) *)
+Fixpoint delivered_unf (q : list amsg) (st : list mstat) : nat :=
+  match q, st with
+  | m :: q', s :: st' =>
+      (if am_filtered m then 0 else match s with SOpen => 0 | _ => 1 end) + delivered_unf q' st'
+  | _, _ => 0
+  end.
+
+(* no wedge: the node may be found waiting for the destination (the harness had to cancel it in
+   Ack, ATErr true) only if the destination still owes an ack - it sent fewer acks than unfiltered
+   messages were handed to the node.  Otherwise an ack the destination did deliver was lost and
+   the node would wait for ever (a graceful stop never completes). *)
+Definition wedge_ok (q : list amsg) (st : list mstat) (t : aterm) (strm : list dack) : bool :=
+  match t with
+  | ATErr true => length strm <? delivered_unf q st
+  | _ => true
+  end.
+
 Definition acker_monitor (q : list amsg) (script : list areply) (o : aout) : bool :=
   let '(st, t) := o in
-  aterm_live t && acked_ok q st (ack_stream script).
+  aterm_live t && acked_ok q st (ack_stream script) && wedge_ok q st t (ack_stream script).
 
 (* ====================================================================================== *)
 (* runSandbox                                                                             *)
@@ -384,7 +462,7 @@ Definition sandbox_monitor (cs : list scall) (os : list sres) (t : sterm) : bool
 
 Inductive v1case :=
 | CProc (ms : list pmsg) (ofw : list fwd) (ost : list mstat) (ot : pterm)
-| CAcker (fx : bool) (q : list amsg) (script : list areply) (ost : list mstat) (ot : aterm)
+| CAcker (fx : bool) (ph : list (list amsg)) (script : list areply) (ost : list mstat) (ot : aterm)
 | CSandbox (cs : list scall) (os : list sres) (ot : sterm).
 
 Definition nats_eqb := list_eqb Nat.eqb.
@@ -414,8 +492,8 @@ Definition proc_agree (ms : list pmsg) (ofw : list fwd) (ost : list mstat) (ot :
   | V1Panic _ => pterm_eqb ot PTPanic
   end.
 
-Definition acker_agree (fx : bool) (q : list amsg) (script : list areply) (ost : list mstat) (ot : aterm) : bool :=
-  match acker_run fx q script with
+Definition acker_agree (fx : bool) (ph : list (list amsg)) (script : list areply) (ost : list mstat) (ot : aterm) : bool :=
+  match acker_feed_run fx ph script with
   | V1Ok (st, t) => list_eqb mstat_eqb st ost && aterm_eqb t ot
   | V1Panic _ => aterm_eqb ot ATPanic
   end.
@@ -429,8 +507,8 @@ Definition chk_v1 (c : v1case) : nat :=
   | CProc ms ofw ost ot =>
       code (proc_agree ms ofw ost ot) (proc_monitor ms (ofw, ost, ot))
       + (if pterm_live ot then 0 else 4)
-  | CAcker fx q script ost ot =>
-      code (acker_agree fx q script ost ot) (acker_monitor q script (ost, ot))
+  | CAcker fx ph script ost ot =>
+      code (acker_agree fx ph script ost ot) (acker_monitor (concat ph) script (ost, ot))
       + (if aterm_live ot then 0 else 4)
   | CSandbox cs os ot =>
       code (sandbox_agree cs os ot) (sandbox_monitor cs os ot)
